@@ -1847,6 +1847,44 @@ const SPECS: &[Spec] = &[
                `create_response` (sign with the server's identity key) are parameters; an error of `process` becomes an error \
                REPLY (`error_msg`, the error code is the error), every other error is returned; `map_err` only rewrites the text.",
     },
+    Spec {
+        id: "C15",
+        file: "src/tasigner/signer.rs",
+        ty: "TrustAnchorSigner",
+        method: "process_signer_request",
+        lean: "TrustAnchorSigner.process_signer_request",
+        sig: "&self,signed_request:TrustAnchorSignedRequest,ta_timing_config:TaTimingConfig,ta_mft_number_override:Option<u64>,signer:&KrillSigner->KrillResult<Vec<TrustAnchorSignerEvent>>",
+        binders: "{ε R : Type} (validate : Except ε Unit) (current_number : Nat) (err_override : Nat → Nat → ε) (rest : Except ε R) (ta_mft_number_override : Option Nat)",
+        args: "validate current_number err_override rest ta_mft_number_override",
+        ret: "Except ε R",
+        num: Num::Nat,
+        names: &[
+            ("ta_mft_number_override", "ta_mft_number_override"),
+            ("signed_request.validate(&self.proxy_id)", "validate"),
+            ("self.objects.revision().number()", "current_number"),
+            (
+                "Error::Custom(format!(\"TAmanifestnumberoverride{}doesnotexceedthecurrentnumber{}\",forced,self.objects.revision().number()))",
+                "(err_override forced current_number)",
+            ),
+        ],
+        methods: &[],
+        state_ty: &[],
+        elem_ty: "",
+        enums: &[],
+        structs: &[],
+        types: &[],
+        opaque_lets: &[],
+        effects: &[],
+        wrapper: None,
+        cond_effects: &[],
+        self_fields: &[],
+        mut_params: &[],
+        extern_enums: &[],
+        tail: Some(("FROM:letmutobjects=self.objects.clone();", "rest")),
+        note: "only the two guards in front of the signing are translated: the request validates under the proxy's identity \
+               (`validate`), and a manifest-number override must EXCEED the signer's current manifest / CRL number \
+               (`self.objects.revision().number()`, the parameter `current_number`); the signing itself is the parameter `rest`.",
+    },
 ];
 
 type R = Result<String, String>;
@@ -2322,6 +2360,13 @@ impl<'a> Tr<'a> {
                 }
                 if plain && joined == text {
                     return Ok(format!("{}{lean}", pad(ind)));
+                }
+                // `FROM:<statement>`: everything from that statement on stands for the Lean term and is NOT compared (the
+                // continuation of a function whose leading guards are what is translated)
+                if let Some(marker) = text.strip_prefix("FROM:") {
+                    if plain && joined.starts_with(marker) {
+                        return Ok(format!("{}{lean}", pad(ind)));
+                    }
                 }
             }
         }
@@ -3181,7 +3226,9 @@ pub fn run(repo: &Path, table: &str) -> String {
         for (en, vs) in s.extern_enums {
             out.push_str(&format!("    `enum {en}` belongs to a dependency: generated without payload from the variant list {}\n", vs.join(" | ")));
         }
-        if let Some((text, lean)) = s.tail {
+        if let Some((text, lean)) = s.tail.filter(|(t, _)| t.starts_with("FROM:")) {
+            out.push_str(&format!("    everything from the statement `{}` on is the parameter `{lean}` and is NOT compared (only the guards in front of it are translated)\n", &text[5..]));
+        } else if let Some((text, lean)) = s.tail {
             out.push_str(&format!("    the closing statements `{text}` (compared verbatim) ↦ `{lean}`\n"));
         }
         for ((r, m), v) in s.methods {
